@@ -552,7 +552,8 @@ class IndexBase(Family):
 # malformed files
 # ----------------------------------------------------------------------------
 MUTATIONS = ("header", "header", "sizelen", "sizelen", "blank_size", "nonint_order", "truncated", "nnz_big", "nnz_small",
-             "sub_oob", "kt_cols", "kt_rank_line", "int_value", "extra_data", "empty_file")
+             "sub_oob", "sub_neg", "wrong_base", "kt_cols", "kt_rank_line", "kt_header", "int_value", "extra_data",
+             "empty_file")
 #: the rejections the property (theorem C16_decode_rejects) speaks about
 SPEC_REJECTS = ("header", "sizelen", "blank_size", "empty_file")
 
@@ -601,6 +602,19 @@ def mutate(lines, mut):
             return None
         j = mut["col"] % (len(L[4]) - 1)
         L[4][j] = str(int(L[2][j]) + 1 + mut.get("plus", 0))
+    elif k == "sub_neg":
+        if head != "sptensor" or len(L) < 5:
+            return None
+        n = 4 + mut["row"] % (len(L) - 4)
+        L[n][mut["col"] % (len(L[n]) - 1)] = str(mut["to"])
+    elif k == "wrong_base":
+        if head != "sptensor":
+            return None
+    elif k == "kt_header":
+        if head != "ktensor":
+            return None
+        j = mut["col"] % len(L[2])
+        L[2][j] = str(max(0, int(L[2][j]) + mut["delta"]))
     elif k == "kt_cols":
         if head != "ktensor":
             return None
@@ -648,9 +662,9 @@ class Malformed(Family):
         for _ in range(150 if tier == "quick" else 1500):
             kind = rng.choice(MUTATIONS)
             w = (1, 1, 1, 1)
-            if kind in ("nnz_big", "nnz_small", "sub_oob"):
+            if kind in ("nnz_big", "nnz_small", "sub_oob", "sub_neg", "wrong_base"):
                 w = (0, 1, 0, 0)
-            elif kind in ("kt_cols", "kt_rank_line"):
+            elif kind in ("kt_cols", "kt_rank_line", "kt_header"):
                 w = (0, 0, 1, 0)
             o = strip_layout(_any_obj(rng, tier, w))
             mut = {"kind": kind}
@@ -663,6 +677,12 @@ class Malformed(Family):
             elif kind == "sub_oob":
                 mut["col"] = rng.randrange(8)
                 mut["plus"] = rng.choice([0, 0, 1, 5])
+            elif kind == "sub_neg":
+                mut["row"], mut["col"], mut["to"] = rng.randrange(64), rng.randrange(8), rng.choice([0, 0, -1, -5])
+            elif kind == "wrong_base":  # a 1-based file read with another base: shifted or rejected
+                mut["base"] = rng.choice([0, 2, 2, 3, -1])
+            elif kind == "kt_header":
+                mut["col"], mut["delta"] = rng.randrange(8), rng.choice([1, -1, 2])
             elif kind == "kt_rank_line":
                 mut["delta"] = rng.choice([1, -1])
             elif kind == "int_value":
@@ -685,9 +705,10 @@ class Malformed(Family):
                     lines = [[render(t) for t in ln] for ln in enc["file"]]
                 p = wd.path()
                 write_lines(p, lines)
-                imps.append(do_import(p))
+                base = c["mut"].get("base", 1) if applied[-1] else 1
+                imps.append(do_import(p, None if base == 1 else base))
                 real, _ = read_lines(p)
-                reqs.append({"op": "c16.decode", "file": [[lex(t) for t in ln] for ln in real], "base": 1})
+                reqs.append({"op": "c16.decode", "file": [[lex(t) for t in ln] for ln in real], "base": base})
             decs = drive(reqs)
         for c, ap, imp, dec in zip(cases, applied, imps, decs):
             kind = c["mut"]["kind"] if ap else "unchanged"
